@@ -145,6 +145,14 @@ def invalidateIdentifier (p : Proc) (i : Nat) (now : Nat) : Res Proc :=
     | none => .err "KeyError"
   else .ok p
 
+/-- `ProcessStatus.remove_identifier`: the entry is deleted, the instance leaves the running identifiers and, as long as some
+    instance still knows the process, the status is evaluated again without it (`update_status(identifier, STOPPED)`) -/
+def removeIdentifier (p : Proc) (i : Nat) : Res Proc :=
+  let p1 := { p with infos := p.infos.del i, running := p.running.erase i }
+  -- no instance knows the process any more: the `ProcessStatus` is dropped by `Context.on_process_removed_event` (a later
+  -- addition starts from a fresh one)
+  if p1.infos.isEmpty then .ok {} else updateStatus p1 i .stopped
+
 /-- `ProcessStatus.force_state`; returns the new status and whether the forced state was applied -/
 def forceState (p : Proc) (target : Nat) (s : PState) (et : Nat) : Proc × Bool :=
   let apply := match p.infos.get? target with
@@ -183,7 +191,7 @@ def pstep (p : Proc) (now : Nat) : POp → Res Proc
   | .upd i s e et dis => updateInfo p i s e et (some dis) now
   -- `Context.invalidate_failed`: every process of the lost instance, running there (first loop) or only STOPPING there (second loop)
   | .lose i => invalidateIdentifier p i now
-  | .remove i => if (p.infos.get? i).isSome then .ok { p with infos := p.infos.del i } else .err "KeyError"
+  | .remove i => if (p.infos.get? i).isSome then removeIdentifier p i else .err "KeyError"
   | .force target s et => .ok (forceState p target s et).1
   | .disable i dis => match p.infos.get? i with
     | some v => .ok { p with infos := p.infos.set i { v with disabled := dis } }
